@@ -18,6 +18,7 @@ import TlxVerif.Proofs.C01Bulk
 import TlxVerif.Proofs.C01Verify
 import TlxVerif.Proofs.C01VerifyConv
 import TlxVerif.Proofs.C01Full
+import TlxVerif.Model.C01Trace
 namespace TlxVerif.C02
 open TlxVerif.C01
 
@@ -393,5 +394,20 @@ theorem inv_at_every_point (c : Cfg) (pv : c.p.Valid) (m0 m1 : Nat) (ops : List 
       lg.innerAlloc = lg.innerFree + (s'.t0.nInner + s'.t1.nInner) := by
   obtain ⟨s', outs, lg, h1, h2, h3, _, _, h6, h7, _⟩ := inv_all_histories_full c pv m0 m1 (ops.take n)
   exact ⟨s', outs, lg, h1, h2, h3, h6, h7⟩
+
+/-! ## the branch trace used for the coverage report
+
+`drv_c0x trace` reports for every erase which branch of `erase_one_descend` / `erase_iter_descend` each
+frame took in the model (checks/c01.py plans the deep-tree cases with it and puts the coverage table into
+the evidence).  The traced descent is the model's descent, and the reported row of the underflow case
+table is the row whose action the model executes. -/
+
+theorem trace_is_model (p : Params K) (tg : Target K) (h : Nat) (n : BNode K V) (ctx : Ctx K V) :
+    (eraseDescendT p tg h n ctx).map (Option.map Prod.fst) = eraseDescend p tg h n ctx :=
+  eraseDescendT_fst p tg h n ctx
+
+theorem trace_row_is_decision (minUse : Nat) (leftUse rightUse lp rp par : Option Nat) :
+    decideFix minUse leftUse rightUse lp rp par = (decideRow minUse leftUse rightUse lp rp par).fix :=
+  decideFix_eq_row minUse leftUse rightUse lp rp par
 
 end TlxVerif.C02
